@@ -20,5 +20,10 @@ Inv_PairHolds == st.stage = 1 /\ Promised(st.c) => Holds(st.c)
 \* situations (design-level deviations, reported as known findings when the real code shows them)
 Inv_MigDeviationsClassified ==
   st.stage = 1 /\ st.pair = "ball_mig" /\ Promised(st.c) => MigDeviations(st.c) \subseteq {"masked_nearest", "dmax_nearest_outside"}
+\* a ball (equal components, dist_type 2) never refuses the closest sample while accepting a farther one;
+\* a box does, even with equal components (the "corner" geometry must exist in the catalogue)
+Inv_NoCornerForBall ==
+  st.stage = 1 /\ st.pair = "ball_mig" /\ st.c.dmax.kind = "l2" /\ DmaxClass(st.c.dmax) = "equal"
+     => \A i \in MigActiveTargets(st.c) : ~MigCorner(st.c, st.c.tgt[i])
 Emit == st.stage = 0 \/ PrintT(ToJson(EmitRec(st.c)))
 =============================================================================
